@@ -197,7 +197,7 @@ def classOf (s : State) (env : Env) : Op → String
     if c.sym ≠ [] ∧ c.dirs = 0 ∧ c.files = 0 then
       (match parseExpr c.sym with
        | none => "sym_malformed"
-       | some cs => if cs.all (fun cl => cl.targets.all (· = 'a')) then "-" else "sym_kind_specific_clauses")
+       | some _ => "-")   -- `sym_kind_specific_clauses` is repaired (Props.C11_symbolic_full)
     else "-"
   | .remove p => match entryAt s env p with | some ([], _) => "remove_root" | _ => "-"
   | .removeAll p => match entryAt s env p with | some ([], _) => "remove_all_root" | _ => "-"
